@@ -339,6 +339,11 @@ def hand_programs():
     dw = {"id": 2, "name": "dw", "kind": "derived", "window": {"type": "within", "deps": [0]},
           "levels": [{"name": "isa", "table": [[["a"]]]}, {"name": "isb", "table": [[["b"]]]}]}
     out.append(("weighted-with-implied-derived", cross([0, 1, 2], [0, 1], [], [], [fw, g, dw])))
+    out.append(("weighted-uncrossed-with-implied-derived", cross([0, 1, 2], [1], [], [], [fw, g, dw])))
+    # the hidden replacement of the weighted f is in act_design (dw is crossed) but SMGen's dicts have no such key
+    ew = {"id": 3, "name": "ew", "kind": "derived", "window": {"type": "within", "deps": [0]},
+          "levels": [{"name": "ea", "table": [[["a"]]]}, {"name": "eb", "table": [[["b"]]]}]}
+    out.append(("weighted-hidden-factor-read-by-implied", cross([0, 1, 2, 3], [1, 2], [], [], [fw, g, dw, ew])))
     for k in REFUSED:
         c = {"id": 0, "kind": k, "level": [0, "a"]}
         if k in ("AtMostKInARow", "AtLeastKInARow", "ExactlyK"):
